@@ -3,8 +3,8 @@ from driver import Unit
 SRC = "harness/C09_sets.cpp"
 
 
-def u(name, n, quick=("asan-cc",), thorough=("asan-cc", "asan-nocc"), qs=8, ts=16):
-    return Unit(name, SRC, defs=[f"-DVF_UNIT={n}"], flavours={"quick": list(quick), "thorough": list(thorough)},
+def u(name, n, part=0, quick=("asan-cc",), thorough=("asan-cc", "asan-nocc"), qs=4, ts=8):
+    return Unit(name, SRC, defs=[f"-DVF_UNIT={n}", f"-DVF_PART={part}"], flavours={"quick": list(quick), "thorough": list(thorough)},
                 shards={"quick": qs, "thorough": ts})
 
 
@@ -30,13 +30,22 @@ P = dict(
           "Random case = one 40-operation history. One evaluation = one tetl call whose result and resulting state were compared with the std::set model. "
           "Distinct = distinct hash of (configuration, set before, overload, arguments); non-trivial = the set is non-empty or the operation modifies it."),
     units=[
-        u("C09_sset_int", 1),
+        # static_set<int,N,Cmp>: p0 N=3 (4 comparators) + N=1, N=2, coarse N=3 ; p1 N=4 + coarse ; p2 N=16 (random histories only) ; p3 N=5/universe 7 (thorough)
+        u("C09_sset_int_p0", 1, 0),
+        u("C09_sset_int_p1", 1, 1),
+        u("C09_sset_int_p2", 1, 2),
+        u("C09_sset_int_p3", 1, 3, quick=(), thorough=("asan-cc",)),
         u("C09_sset_tracked", 2),
-        u("C09_fset_sv", 3),
-        u("C09_fset_veclike", 4, thorough=("asan-cc",)),
-        u("C09_fmset", 5, qs=4),
-        u("C09_sset_equal_range", 6, thorough=("asan-cc",), qs=2, ts=4),
-        u("C09_fset_insert_sorted_unique", 7, thorough=("asan-cc",), qs=2, ts=4),
+        u("C09_fset_sv_p0", 3, 0),
+        u("C09_fset_sv_p1", 3, 1),
+        u("C09_fset_sv_p2", 3, 2),
+        u("C09_fset_sv_p3", 3, 3, quick=(), thorough=("asan-cc",)),
+        u("C09_fset_veclike_p0", 4, 0, thorough=("asan-cc",)),
+        u("C09_fset_veclike_p1", 4, 1, thorough=("asan-cc",)),
+        u("C09_fset_veclike_p2", 4, 2, thorough=("asan-cc",)),
+        u("C09_fmset", 5, qs=2, ts=4),
+        u("C09_sset_equal_range", 6, thorough=("asan-cc",), qs=2, ts=2),
+        u("C09_fset_insert_sorted_unique", 7, thorough=("asan-cc",), qs=2, ts=2),
         u("C09_fset_tracked", 8, thorough=("asan-cc",)),
     ],
     floor={"quick": 3000000, "thorough": 30000000},
